@@ -53,6 +53,10 @@ def cases(tier, seed):
     for t in range(120 if thorough else 30):
         n = int(rs.randint(4, nmax + 1))
         out.append({'kind': 'spectral', 'g': ['er', n, float(rs.choice([.1, .2, .4, .7])), False, int(rs.randint(1 << 30))], 'ws': t})
+    # walk counts beyond 2**63 (and, thorough, beyond 2**128): dense graphs of 18..40 nodes
+    for n in ((18, 22, 26, 40) if thorough else (18, 24)):
+        out.append({'kind': 'spectral', 'g': ['named', 'complete', n], 'ws': n, 'walks': True})
+        out.append({'kind': 'spectral', 'g': ['er', n, .6, False, seed + n], 'ws': n, 'walks': True})
     # random-walk measures: connected undirected / strongly connected directed, periodic ones included
     conn = [['named', 'cycle', 4], ['named', 'cycle', 6], ['named', 'cycle', 10], ['named', 'cycle', 7], ['named', 'path', 4], ['named', 'path', 7],
             ['named', 'kab', 2, 5], ['named', 'kab', 3, 3], ['named', 'kab', 3, 4], ['named', 'star', 6], ['named', 'grid', 2, 4],
@@ -102,7 +106,7 @@ def run_spectral(case, bct, REC):
                 if vr.shape == (n,):
                     res = float(np.max(np.abs(X @ vr - lam * vr)))
                     REC.check(PROP, 'eigenvector_centrality_und', 'eigen_equation', res <= 1e-8 * max(1.0, lam), dict(det, got=v, lambda_max=lam, residual=res), cls)
-        if wname == 'bin' and n <= 12:
+        if wname == 'bin' and (n <= 12 or case.get('walks')):
             ok, res = call(REC, PROP, 'findwalks', bct.findwalks, X)
             if ok:
                 Wq, tw, wlq = res
@@ -116,7 +120,7 @@ def run_spectral(case, bct, REC):
                         P = P @ X
                         exp_tot += P.sum()
                         exp_wlq[q] = P.sum()
-                        if not np.array_equal(Wq[:, :, q], P):
+                        if not (np.array_equal(Wq[:, :, q], P) if n <= 12 else close(Wq[:, :, q], P, rtol=1e-12, atol=0)):
                             good = False
                             break
                 REC.check(PROP, 'findwalks', 'matrix_powers', good, dict(det, q=q if n > 1 else None), cls)
